@@ -1,22 +1,46 @@
 // Object-first tables: group "core" - presence, stanza error, plain IQ and the classic IQ payloads of src/base.
 //
+// Entries: QXmppStanza::Error, QXmppExtendedAddress, QXmppPresence, QXmppIq, QXmppMucItem, QXmppRosterIq(::Item),
+// QXmppVCardAddress/Email/Phone, QXmppVCardIq, QXmppDiscoveryIq, QXmppBindIq, QXmppSessionIq, QXmppNonSASLAuthIq,
+// QXmppPingIq, QXmppVersionIq, QXmppEntityTimeIq, QXmppRegisterIq, QXmppMucAdminIq, QXmppMucOwnerIq,
+// QXmppBitsOfBinaryData, QXmppBitsOfBinaryIq, QXmppArchiveChat, QXmppArchiveChatIq/ListIq/RetrieveIq/RemoveIq/PrefIq,
+// QXmppRpcInvokeIq/ResponseIq/ErrorIq, QXmppBookmarkSet, QXmppPushEnableIq, QXmppExternalService(DiscoveryIq),
+// QXmppHttpUploadRequestIq/SlotIq, QXmppIbbOpenIq/CloseIq/DataIq, QXmppByteStreamIq, QXmppTransferFileInfo,
+// QXmppStreamInitiationIq.
+//
+// Not entries of their own (tested nested only):
+//   * QXmppVCardOrganization: toXml() writes three sibling elements and parse() reads the <vCard/> parent;
+//   * QXmppBookmarkConference/Url, QXmppArchiveMessage, QXmppDiscoveryIq::Identity/Item, QXmppByteStreamIq::StreamHost,
+//     QXmppBitsOfBinaryContentId, QXmppBitsOfBinaryDataList: no codec pair of their own;
+//   * QXmppE2eeMetadata: never serialised (only has_value of the stanza getter is dumped);
+//   * QXmppDataForm, QXmppResultSetQuery/Reply: small generators here, the thorough tables belong to the pubsub group;
+//     QXmppJingleIq::Content (muji contents of a presence): minimal contents here, the media group has the full table.
+//
+// FINDINGS kept visible by the generators (see the notes at the classes):
+//   * Jabber-RPC marshaller: every integer variant is written as <i4/> but only 32-bit signed values are read back (the
+//     argument and all following ones are dropped); QDate comes back as a QDateTime, QTime as an invalid QDateTime.
+//     The dump names these values rpc.int-outside-i4 / rpc.date / rpc.time and lists sizes AFTER the elements, so that the
+//     recorded finding has its own failure signature and any other loss in the RPC classes keeps a different one.
+// Repaired in /repo since this table was written (the generators now use the full domain): QXmppIq xml:lang, the RSM reply
+// count of a request, the uninitialised tzo / profile / port members.
+//
 // Domain notes (read from the parse()/toXml() pairs in /repo/src/base):
 //   * QXmppStanza::Error: a default error (NoType and NoCondition) serialises to nothing, so at least one of the two is set.
 //     `code` is written only when > 0 (0 = unset): domain 1..INT_MAX.  The redirection URI exists only for Gone/Redirect
 //     (documented on the setter).  <file-too-large/> and <retry/> are alternatives (toXml: else-if), maxFileSize belongs to
 //     fileTooLarge (setMaxFileSize sets the flag).
 //   * QXmppIq: every QXmppIq constructor draws an id from a process-wide counter, so every entry sets the id explicitly
-//     (present or empty).  `lang` and the XEP-0033 addresses are QXmppStanza fields; they are exercised on QXmppPresence and on
-//     the plain QXmppIq only (see FINDING notes there), the payload classes leave them unset.
+//     (present or empty).  `lang` is a QXmppStanza field; it is exercised on QXmppPresence and on the plain QXmppIq only,
+//     the payload classes leave it unset.  XEP-0033 addresses are defined for message and presence: set on presence only.
 //   * QXmppPresence: <c/> is written only when node, ver and hash are all set (XEP-0115 requires the three): set together.
 //     capabilityExt has no setter and is not written.  photoHash belongs to VCardUpdateValidPhoto only.  mucPassword lives
 //     inside <x xmlns=muc/>, i.e. only with mucSupported.  A null QXmppMucItem is the "absent" item.
 //   * QXmppVCardIq: photoType is derived from the image bytes by toXml() when empty, so it is always set together with the
-//     photo; birthday is written as yyyy-MM-dd (years 0001..9999).  QXmppVCardOrganization writes three sibling elements and
-//     parses from the <vCard/> parent: tested nested only.
+//     photo; birthday is written as yyyy-MM-dd (years 0001..9999).
 //   * QXmppDiscoveryIq: identities/features belong to InfoQuery, items to ItemsQuery (toXml writes only the selected kind);
 //     the XEP-0128 form is set for InfoQuery only.
-//   * Data forms here are small ones (text-single, hidden, boolean, list-multi): the thorough table is in the pubsub group.
+//   * Jabber-RPC: dateTime.iso8601 has seconds resolution (date-times without milliseconds); a response is a fault or values.
+//   * Other per-class notes stand next to the generators.
 #pragma once
 
 #include "objgen.h"
@@ -849,13 +873,11 @@ inline void dumpVersion(const QXmppVersionIq &q, D &d)
 }
 // <tzo/> and <utc/> are written together and only with a valid utc (toXml).  tzo is "+hh:mm"/"-hh:mm"/"Z": whole minutes,
 // below 24 h.
-// FINDING (by reading, src/base/QXmppEntityTimeIq.h): the class has no constructor and m_tzo has no initialiser, so tzo() of
-// a request that never called setTzo() reads an indeterminate int.  The request form therefore sets tzo to 0 explicitly.
+// (was a FINDING by reading: m_tzo had no initialiser; repaired in /repo by c2ba400, so the request form leaves tzo untouched)
 inline QXmppEntityTimeIq genEntityTime(Vals &v)
 {
     QXmppEntityTimeIq q;
     genIqBase(v, q, { QXmppIq::Get, QXmppIq::Result });
-    q.setTzo(0);
     if (v.t.b()) {
         q.setUtc(gen::dateTime(v.t));
         q.setTzo(int(v.t.range(-1439, 1439)) * 60);
@@ -1029,9 +1051,14 @@ inline void dumpArchiveChat(const QXmppArchiveChat &c, D &d)
 // and an array: the dump names values by their XML-RPC kind, not by the QVariant type.  Struct member names start with
 // their index: a QVariantMap is ordered by key and collapses equal keys, so without it the member order (and count)
 // would depend on the drawn strings and differ from the benign twin (table false alarm, corrected).
+// FINDING (QXmppRpcIq.cpp): marshall() writes Int/UInt/LongLong/ULongLong all as <i4/> (lines 33-38) but demarshall() reads
+// <i4/> with toInt() (157-164): a value outside the 32-bit signed range is an error, the argument and every following one
+// are dropped.  QDate and QTime are written as <dateTime.iso8601/> with a date-only / time-only text (57-59, 71-73) and read
+// back with QDateTime::fromString (174-175): the date becomes a QDateTime (local midnight), the time an invalid QDateTime.
+// The kinds 1-3, 9 and 10 below keep these visible; without them the three RPC classes are clean.
 inline QVariant genRpcValue(Vals &v, int depth = 0)
 {
-    size_t kind = v.t.weighted({ 4, 0, 0, 0, 3, 2, 3, 2, 2, 0, 0, 2, 2, 2, 1 });
+    size_t kind = v.t.weighted({ 4, 1, 1, 1, 3, 2, 3, 2, 2, 1, 1, 2, 2, 2, 1 });
     if (depth >= 2 && kind >= 12)
         kind = 11;
     switch (kind) {
@@ -1100,9 +1127,11 @@ inline void dumpRpcValue(const QVariant &x, D &d)
     case QMetaType::Int:
     case QMetaType::UInt:
     case QMetaType::LongLong:
-    case QMetaType::ULongLong:
-        d("rpc.int", x.toString());
+    case QMetaType::ULongLong: {
+        bool fits = x.userType() == QMetaType::ULongLong ? x.toULongLong() <= 2147483647ull : (x.toLongLong() >= -2147483648ll && x.toLongLong() <= 2147483647ll);
+        d(fits ? "rpc.int" : "rpc.int-outside-i4", x.toString());
         break;
+    }
     case QMetaType::Double:
         d("rpc.double", x.toDouble());
         break;
@@ -1127,18 +1156,18 @@ inline void dumpRpcValue(const QVariant &x, D &d)
     case QMetaType::QStringList:
     case QMetaType::QVariantList: {
         const auto l = x.toList();
-        d("rpc.array", l.size());
         for (const auto &e : l)
             dumpRpcValue(e, d);
+        d("rpc.array-size", l.size());
         break;
     }
     case QMetaType::QVariantMap: {
         const auto m = x.toMap();
-        d("rpc.struct", m.size());
         for (auto it = m.begin(); it != m.end(); ++it) {
             d("rpc.member", it.key());
             dumpRpcValue(it.value(), d);
         }
+        d("rpc.struct-size", m.size());
         break;
     }
     default:
@@ -1157,11 +1186,58 @@ inline QVariantList genRpcValues(Vals &v)
         l << genRpcValue(v);
     return l;
 }
+// which of the recorded lossy kinds occur anywhere in a value (bit 1: integer outside i4, 2: QDate, 4: QTime)
+inline unsigned rpcLossyKinds(const QVariant &x)
+{
+    unsigned k = 0;
+    switch (int(x.userType())) {
+    case QMetaType::UInt:
+    case QMetaType::ULongLong:
+        k = x.toULongLong() > 2147483647ull ? 1 : 0;
+        break;
+    case QMetaType::Int:
+    case QMetaType::LongLong:
+        k = (x.toLongLong() < -2147483648ll || x.toLongLong() > 2147483647ll) ? 1 : 0;
+        break;
+    case QMetaType::QDate:
+        k = 2;
+        break;
+    case QMetaType::QTime:
+        k = 4;
+        break;
+    case QMetaType::QStringList:
+    case QMetaType::QVariantList:
+        for (const auto &e : x.toList())
+            k |= rpcLossyKinds(e);
+        break;
+    case QMetaType::QVariantMap: {
+        const auto m = x.toMap();
+        for (auto it = m.begin(); it != m.end(); ++it)
+            k |= rpcLossyKinds(it.value());
+        break;
+    }
+    default:
+        break;
+    }
+    return k;
+}
 inline void dumpRpcValues(const char *k, const QVariantList &l, D &d)
 {
-    d(k, l.size());
+    // An unreadable value makes the parser give up on the enclosing argument and on everything after it, so the first
+    // differing getter would be whatever happens to stand first.  The recorded finding therefore gets a line of its own in
+    // front (a re-parsed list can never contain these kinds); every other loss in these classes keeps its own signature.
+    unsigned lossy = 0;
+    for (const auto &x : l)
+        lossy |= rpcLossyKinds(x);
+    if (lossy & 1)
+        d("rpc.contains-int-outside-i4", true);
+    if (lossy & 2)
+        d("rpc.contains-date", true);
+    if (lossy & 4)
+        d("rpc.contains-time", true);
     for (const auto &x : l)
         dumpRpcValue(x, d);
+    d(k, l.size());
 }
 inline void fillRpcInvoke(Vals &v, QXmppRpcInvokeIq &q)
 {
@@ -1341,11 +1417,12 @@ inline QXmppByteStreamIq genByteStream(Vals &v)
     QList<QXmppByteStreamIq::StreamHost> hosts;
     int n = int(v.t.u(4));
     for (int i = 0; i < n; i++) {
-        QXmppByteStreamIq::StreamHost h;   // StreamHost has no constructor: m_port is indeterminate until set, so always set
+        QXmppByteStreamIq::StreamHost h;   // (m_port had no initialiser; repaired in /repo by c2ba400: the port may stay unset)
         h.setJid(v.jid());
         if (v.t.b())
             h.setHost(v.attr(20));
-        h.setPort(num<quint16>(v));
+        if (v.t.b())
+            h.setPort(num<quint16>(v));
         if (v.t.b())
             h.setZeroconf(v.attr(16));
         hosts << h;
@@ -1372,8 +1449,31 @@ inline void dumpByteStream(const QXmppByteStreamIq &q, D &d)
     d("streamHostUsed", q.streamHostUsed());
 }
 // file size: written only when > 0 (0 = unknown).  The <file/> element belongs to the file-transfer profile.
-// FINDING (by reading, src/base/QXmppStreamInitiationIq_p.h): no constructor, m_profile has no initialiser: profile()
-// and toXml() of an IQ that never called setProfile() read an indeterminate enum.  The profile is therefore always set.
+// (was a FINDING by reading: m_profile had no initialiser; repaired in /repo by c2ba400, so the profile may stay unset)
+inline QXmppTransferFileInfo genFileInfo(Vals &v)
+{
+    QXmppTransferFileInfo f;
+    if (v.t.b())
+        f.setDate(gen::dateTime(v.t));
+    if (v.t.b())
+        f.setHash(v.t.bytes(16));   // MD5
+    if (v.t.b())
+        f.setName(v.attr());
+    if (v.t.b())
+        f.setDescription(v.text());
+    if (v.t.b())
+        f.setSize(v.t.range(1, 9223372036854775807ll));
+    return f;
+}
+inline void dumpFileInfo(const QXmppTransferFileInfo &f, D &d)
+{
+    d("file.isNull", f.isNull());
+    d("file.date", f.date());
+    d("file.hash", f.hash());
+    d("file.name", f.name());
+    d("file.description", f.description());
+    d("file.size", f.size());
+}
 inline QXmppStreamInitiationIq genStreamInitiation(Vals &v)
 {
     QXmppStreamInitiationIq q;
@@ -1384,21 +1484,9 @@ inline QXmppStreamInitiationIq genStreamInitiation(Vals &v)
         q.setMimeType(v.attr(16));
     if (v.t.b()) {
         q.setProfile(QXmppStreamInitiationIq::FileTransfer);
-        if (v.t.b()) {
-            QXmppTransferFileInfo f;
-            if (v.t.b())
-                f.setDate(gen::dateTime(v.t));
-            if (v.t.b())
-                f.setHash(v.t.bytes(16));   // MD5
-            if (v.t.b())
-                f.setName(v.attr());
-            if (v.t.b())
-                f.setDescription(v.text());
-            if (v.t.b())
-                f.setSize(v.t.range(1, 9223372036854775807ll));
-            q.setFileInfo(f);
-        }
-    } else {
+        if (v.t.b())
+            q.setFileInfo(genFileInfo(v));
+    } else if (v.t.b()) {
         q.setProfile(QXmppStreamInitiationIq::None);
     }
     if (v.t.b())
@@ -1411,13 +1499,7 @@ inline void dumpStreamInitiation(const QXmppStreamInitiationIq &q, D &d)
     d("siId", q.siId());
     d("mimeType", q.mimeType());
     d("profile", q.profile());
-    const auto f = q.fileInfo();
-    d("file.isNull", f.isNull());
-    d("file.date", f.date());
-    d("file.hash", f.hash());
-    d("file.name", f.name());
-    d("file.description", f.description());
-    d("file.size", f.size());
+    dumpFileInfo(q.fileInfo(), d);
     dumpForm(q.featureForm(), d);
 }
 
@@ -1435,6 +1517,7 @@ inline void registerCore()
         [](Vals &v) {
             QXmppIq iq;
             genIqBase(v, iq);
+            // (was a FINDING: QXmppIq::toXml did not write xml:lang; repaired in /repo by e049d39)
             if (v.t.prob(1, 4))
                 iq.setLang(v.t.pick<QString>({ "en", "de", "pt-BR" }));
             // XEP-0033 addresses are defined for <message/> and <presence/> only: not set on an IQ
@@ -1573,6 +1656,8 @@ inline void registerCore()
             if (v.t.b())
                 q.setEnd(gen::dateTime(v.t));
             // a request pages with an RSM query, a result answers with an RSM reply and the chats (toXml: one or the other)
+            // (was a FINDING: the one <set/> is parsed as query and as reply, and a missing <count/> became 0, so a request
+            // reported a non-null resultSetReply(); QXmppResultSetReply::parse is repaired in /repo by 684c0d3)
             if (v.t.b()) {
                 if (v.t.b())
                     q.setResultSetQuery(genRsmQuery(v));
@@ -1771,6 +1856,7 @@ inline void registerCore()
             d("payload", q.payload());
         });
     add<QXmppByteStreamIq>("QXmppByteStreamIq", genByteStream, dumpByteStream);
+    add<QXmppTransferFileInfo>("QXmppTransferFileInfo", genFileInfo, dumpFileInfo);
     add<QXmppStreamInitiationIq>("QXmppStreamInitiationIq", genStreamInitiation, dumpStreamInitiation);
 }
 
